@@ -96,6 +96,8 @@ def case_strategy(draw, max_msgs=12):
             m["cb"] = draw(st.sampled_from(["return", "return", "self_send", "raise"]))
         if tuple(sf) == (2, 41):
             m["rcmd"] = draw(st.sampled_from(["ok", "raise", "unknown"]))
+        if m["body"] == "valid" and draw(st.integers(0, 2)) == 0:
+            m["fill"] = draw(st.sampled_from([1, 2]))  # open lists of the structure carry 1 or 2 members instead of none
         sysb = draw(st.sampled_from([None, None, None, None, None, 0, 1, 0x7FFFFFFF, 0x80000000, 0xFFFFFFFF]))
         if sysb is not None:
             m["sys"] = sysb  # boundary system bytes (0 and 2^32-1 are legal); otherwise the peer's running counter
@@ -106,8 +108,9 @@ def case_strategy(draw, max_msgs=12):
 _CAT = {}
 
 
-def _minimal(shape, items):
-    """Smallest well-formed E5 tree for a catalogue shape (independent reader vf/ref/catalogue.py)."""
+def _minimal(shape, items, fill=0):
+    """Smallest well-formed E5 tree for a catalogue shape (independent reader vf/ref/catalogue.py); fill = number of
+    members put into every open list (0: the minimal tree)."""
     kind = shape[0]
     if kind == "item":
         it = items[shape[1]]
@@ -120,11 +123,11 @@ def _minimal(shape, items):
             return (f, [False])
         return (f, [0])
     if kind == "array":
-        return (L, [])
-    return (L, [_minimal(c, items) for c in shape[2]])
+        return (L, [_minimal(shape[2], items, fill) for _ in range(fill)])
+    return (L, [_minimal(c, items, fill) for c in shape[2]])
 
 
-def _valid_body(sf, role, handler):
+def _valid_body(sf, role, handler, fill=0):
     """A well-formed body for a catalogued primary: a specific tree, or the minimal tree of its catalogue structure."""
     from vf.ref import catalogue
 
@@ -140,7 +143,7 @@ def _valid_body(sf, role, handler):
     fn = _CAT["fn"].get(sf)
     if fn is None or fn.shape is None:
         return b""
-    return e5.encode(_minimal(fn.shape, _CAT["items"]))
+    return e5.encode(_minimal(fn.shape, _CAT["items"], fill))
 
 
 def run_case(case, observe=None):
@@ -207,7 +210,7 @@ def run_case(case, observe=None):
             mode.clear()
             mode["cb"] = m.get("cb", "return")
             mode["rcmd"] = m.get("rcmd", "ok")
-            body = _valid_body(sf, role, h)
+            body = _valid_body(sf, role, h, fill=m.get("fill", 0))
             if sf == (2, 41) and m.get("rcmd") == "unknown":
                 body = e5.encode((L, [(A, b"NOPE"), (L, [])]))
             kind = m["body"]
